@@ -1080,6 +1080,16 @@ def method_model(ip, o, name, args, kwargs):
                 o.maps[sp] = z3.Store(o.maps[sp], ke, VAL.absent)
                 return SV(v)
             return args[1]
+        if name == 'setdefault' and len(args) in (1, 2):
+            # d.setdefault(k, default): the stored value if k is present, else store default and return the stored
+            # value (read back through the map so that a list default is the heap object later calls mutate)
+            sp, ke = key_space(ip, args[0])
+            if sp is None:
+                raise Unsupported('dict key of unmodelled type')
+            if not ip.ctx.branch(z3.Select(o.maps[sp], ke) != VAL.absent, 'key?'):
+                ip.heap_write_guard()
+                hdict_set(ip, o, args[0], args[1] if len(args) > 1 else None)
+            return SV(z3.Select(o.maps[sp], ke), o.valtype, o)
         raise Unsupported(f'dict.{name} on symbolic dict')
     if isinstance(o, dict) and not is_concrete(o) or (isinstance(o, dict) and not all(is_concrete(a) for a in args)):
         if name == 'get':
